@@ -143,7 +143,7 @@ ChooseReqHeaders ==
     /\ UNCHANGED m
 
 \* ---- reject mode: the rejection catalogue (validate, resolveMethod, classifyRequest, handle)
-RejectClasses == PreValidationRejects \cup PostValidationRejects \cup {"unknownpath-handler", "restonly-norule-handler"}
+RejectClasses == PreValidationRejects \cup PostValidationRejects \cup {"unknownpath-handler", "restonly-norule-handler", "unknownpath-handler-http1", "rpc-get-idem"}
 
 \* a base request on which the rejection class can be expressed
 RejectBase(rej, f) ==
@@ -157,6 +157,8 @@ RejectBase(rej, f) ==
       [] rej = "unknowncomp" -> f # "connect_get"
       [] rej = "restonly-norule" -> f # "rest"
       [] rej = "restonly-norule-handler" -> f \in {"grpc", "grpcweb", "connect_post"}
+      [] rej = "unknownpath-handler-http1" -> f = "grpc"
+      [] rej = "rpc-get-idem" -> f \in {"connect_post", "connect_get"}
       [] rej = "leading-undecodable" -> f # "connect_get"
       [] rej = "leading-truncated" -> f \in {"grpc", "grpcweb", "connect_stream"}
       [] OTHER -> FALSE
@@ -175,6 +177,8 @@ ChooseReject ==
                           [] rej = "bidi-http1" -> "Bidi"
                           [] rej \in {"restonly-norule", "restonly-norule-handler"} -> "Plain"
                           [] rej = "rpc-get-notnse" -> "Plain"
+                          \* (declared idempotent, which is not "without side effects")
+                          [] rej = "rpc-get-idem" -> "Idem"
                           [] f = "connect_get" -> "Query"
                           [] f = "connect_stream" -> "CStream"
                           [] OTHER -> "Post"
@@ -183,7 +187,7 @@ ChooseReject ==
                        [] rej = "leading-truncated" -> [Frame(1, FALSE) EXCEPT !.fault = "declover"]
                        [] OTHER -> Frame(1, FALSE)
             IN scn' = [scn EXCEPT !.cl.rej = rej, !.cl.form = f, !.cl.codec = c, !.cl.method = meth,
-                                  !.cl.major = IF rej \in {"bidi-http1", "grpc-http1"} THEN 1 ELSE MajorFor(f, meth),
+                                  !.cl.major = IF rej \in {"bidi-http1", "grpc-http1", "unknownpath-handler-http1"} THEN 1 ELSE MajorFor(f, meth),
                                   !.cl.frames = <<fr>>,
                                   !.cfg.unknown = ToUnknown(rej),
                                   !.hd.frames = <<Frame(2, FALSE)>>, !.hd.errat = 1]
@@ -323,8 +327,10 @@ ChooseChunks ==
 ChooseGetOpts ==
     /\ ph = "getopts"
     \* ("hdr": the Connect GET names its protocol version in the Connect-Protocol-Version header, not as connect=v1)
-    /\ \E b \in (IF scn.cl.form = "connect_get" THEN {"", "1", "pad", "hdr"} ELSE {""}), gd \in {"", "m1", "0", "p1"} :
-         scn' = [scn EXCEPT !.cl.b64 = b, !.cl.getdelta = gd]
+    /\ \E b \in (IF scn.cl.form = "connect_get" THEN {"", "1", "pad", "hdr"} ELSE {""}), gd \in {"", "m1", "0", "p1"},
+          \* (Query also has a PUT binding on the same path: a REST client using it has not sent a GET)
+          hm \in (IF scn.cl.form = "rest" /\ scn.cl.method = "Query" THEN {"", "PUT"} ELSE {""}) :
+         scn' = [scn EXCEPT !.cl.b64 = b, !.cl.getdelta = gd, !.cl.http = hm]
     /\ ph' = "run"
     /\ UNCHANGED m
 
